@@ -27,6 +27,12 @@ ANCHORS = [
     'line.Line.__init__',
 ]   # functions whose code the property is anchored in (mutation analysis, evidence)
 
+AUTOMUT_TRIAGE = [
+    (r"__getattr__$", r"drop keyword valid=", "a component's validity is C08's subject (C08.D1 reports it)"),
+    (r"Line\.__init__$", r"line \d+: constant", "Line.dim (taken from the first value) is not an observable of the statement; the columns, "
+     "points, values and distances are"),
+]
+
 
 def run(chk):
     repo = chk.repo
@@ -275,6 +281,15 @@ def d6_sampling(chk, repo):
                   for c_, pol in conds)
         chk.ob("field.Field.__getattr__::only-for-labels", okc, "C02.D6",
                "component access must be limited to names in self.vdims", v.f, r)
+    removed = v.spec("self._removed_attributes")
+    for rs, name in v.raises():
+        par = v.cfg.parent.get(id(rs))
+        if par and isinstance(par[0], ast.If) and par[1] == "body":
+            c = v.ev.term(par[0].test, at=par[0])
+            if v.ctx.mentions(c, removed):
+                chk.ob("field.Field.__getattr__::removed-names-only", v.eq(c, v.spec("attr in self._removed_attributes")), "C02.D6",
+                       f"`{v.src(par[0].test)}` raises before component access; only names listed as removed may be refused here",
+                       v.f, par[0])
 
 
 def d7_line(chk, repo):
